@@ -62,7 +62,7 @@ static inline llong spec_mod_floor(llong i, llong m)
  * the state it is stated in) and only then available to the following clauses.  It restricts
  * nothing; it only spares the SAT back end from re-deriving the same index-arithmetic fact
  * inside every later clause (measured: 16 s -> 1 s per clause). */
-#define C03_LEMMA(c, m) do { __CPROVER_assert(c, "lemma: " m); __CPROVER_assume(c); } while (0)
+#define C03_LEMMA(c, m) { __CPROVER_assert(c, "lemma: " m); __CPROVER_assume(c); }
 
 /* Clause partitioning.  The SAT back end is an order of magnitude slower on the conjunction of
  * several index-arithmetic clauses than on the clauses one by one (measured: 62 s against 6 s),
